@@ -41,6 +41,7 @@ var extraConfigs = map[string][]buildCfg{
 	"C01": {cfgArm64, cfgPurego},
 	"C02": {cfgArm64, cfgPurego},
 	"C03": {cfgArm64, cfg386, cfgPurego},
+	"C04": {cfgArm64, cfgPurego},
 	"C05": {cfgArm64, cfg386, cfgPurego},
 	"C06": {cfgArm64},
 	"C09": {cfgArm64, cfgPurego},
